@@ -1,4 +1,6 @@
 """Unit numbers shared with coq/Model/Dispatch.v"""
 U = dict(
     get_n_best=1,
+    highest_averages=2,
+    divisor=3,
 )
